@@ -58,6 +58,17 @@ def req(shape, traits, extra_t=(), f=None, v=None, split='each', drop_markers=()
     return K.render(shape, cfg, split)
 
 
+def behind_foreign(text, meta):
+    """put a doc comment and a lint attribute in front of the (last) `#[educe(<meta>)]` line of a rendered request"""
+    lines = text.split('\n')
+    idx = [i for i, l in enumerate(lines) if l.strip() == '#[educe(%s)]' % meta]
+    guard(idx, 'offending attribute %s not found on a line of its own' % meta)
+    i = idx[-1]
+    ind = lines[i][:len(lines[i]) - len(lines[i].lstrip())]
+    lines[i:i] = [ind + '/// a doc comment', ind + '#[allow(dead_code)]']
+    return '\n'.join(lines)
+
+
 def supports(shape, t):
     if shape.kind == 'union':
         return t in ('Debug', 'Clone', 'Copy', 'PartialEq', 'Eq', 'Hash', 'Default')
@@ -308,9 +319,12 @@ def generate(tier):
                     continue
                 for pos in (sh.positions()[0], sh.positions()[-1]):
                     bad('trait-not-used', '%s|%s|field%s|%s' % (sk, '+'.join(host), pos, t), req(sh, host, f={pos: [m]}), req(sh, host))
+                    # the same offending attribute behind attributes of other tools (a doc comment, a lint attribute) at that position
+                    bad('trait-not-used', '%s|%s|field%s|%s|behind-foreign' % (sk, '+'.join(host), pos, t), behind_foreign(req(sh, host, f={pos: [m]}), m), req(sh, host))
                 if sh.kind == 'enum':
                     vm = {'Debug': 'Debug(name = A)', 'Default': 'Default'}.get(t, t)
                     bad('trait-not-used', '%s|%s|variant|%s' % (sk, '+'.join(host), t), req(sh, host, v={1: [vm]}), req(sh, host))
+                    bad('trait-not-used', '%s|%s|variant|%s|behind-foreign' % (sk, '+'.join(host), t), behind_foreign(req(sh, host, v={1: [vm]}), vm), req(sh, host))
     for sk, sh in shapes:
         for name in ('Foo', 'debug', 'Partialeq', 'std::fmt::Debug', 'Display'):
             bad('unknown-trait', '%s|type|%s' % (sk, name), req(sh, ['Clone', 'Copy'], [name]), req(sh, ['Clone', 'Copy']))
